@@ -60,19 +60,10 @@ Proof.
   exists b. repeat split; auto. apply plat_eqb_eq; exact Hp. apply negb_true_iff in Hf; exact Hf.
 Qed.
 
-Theorem win_mmaps_in_tables :
-  exists b, In b ladder_blocks /\ l_plat b = Windows /\ l_meth b = "memory_maps"%string /\ l_site b = "QueryDosDevice"%string /\
-    forallb2 (fun c g => gout_ok (demanded (l_plat b) (l_meth b) (l_site b) c) g) (conds (l_plat b)) (l_outs b) = false.
-Proof.
-  destruct (find (fun b => plat_eqb (l_plat b) Windows && String.eqb (l_meth b) "memory_maps" && String.eqb (l_site b) "QueryDosDevice"
-                           && negb (forallb2 (fun c g => gout_ok (demanded (l_plat b) (l_meth b) (l_site b) c) g)
-                                             (conds (l_plat b)) (l_outs b))) ladder_blocks) as [b|] eqn:E;
-    [| vm_compute in E; discriminate].
-  apply find_some in E as [Hin Hb]. apply andb_true_iff in Hb as [Hb Hf]. apply andb_true_iff in Hb as [Hb Hs].
-  apply andb_true_iff in Hb as [Hp Hm].
-  exists b. repeat split; auto. apply plat_eqb_eq; exact Hp. apply String.eqb_eq; exact Hm. apply String.eqb_eq; exact Hs.
-  apply negb_true_iff in Hf; exact Hf.
-Qed.
+Example mmaps_block_present :
+  existsb (fun b => plat_eqb (l_plat b) Windows && String.eqb (l_meth b) "memory_maps" && String.eqb (l_site b) "QueryDosDevice"
+                    && existsb fired (l_outs b)) ladder_blocks = true.
+Proof. vm_compute. reflexivity. Qed.
 
 (* --- every native status code of every PROC_STATUSES *)
 Lemma status_tables_ok :
@@ -244,32 +235,12 @@ Lemma sysfields_ok : forallb sfrow_ok sysfield_rows && sfrows_complete sysfield_
 Proof. vm_compute. reflexivity. Qed.
 
 Theorem names_fields_documented : forall r, In r sysfield_rows ->
-  known_sys_fields (sf_plat r) (sf_fn r) = false -> same_set (sf_fields r) (doc_sys_fields (sf_plat r) (sf_fn r)) = true.
+  same_set (sf_fields r) (doc_sys_fields (sf_plat r) (sf_fn r)) = true.
 Proof.
-  intros r Hin Hk. pose proof sysfields_ok as H. apply andb_true_iff in H as [H _].
-  pose proof (proj1 (forallb_forall _ _) H r Hin) as Hr. unfold sfrow_ok in Hr. rewrite Hk in Hr. exact Hr.
+  intros r Hin. pose proof sysfields_ok as H. apply andb_true_iff in H as [H _].
+  exact (proj1 (forallb_forall _ _) H r Hin).
 Qed.
 
 Theorem names_fields_complete : sfrows_complete sysfield_rows = true.
 Proof. pose proof sysfields_ok as H. apply andb_true_iff in H as [_ H]. exact H. Qed.
 
-Theorem sys_fields_unix_refuted : forall p, In p [SunOS; AIX] ->
-  exists r, In r sysfield_rows /\ sf_plat r = p /\ sf_fn r = "cpu_times"%string /\ sfrow_doc_ok r = false
-            /\ mem "nice" (sf_fields r) = false /\ mem "iowait" (sf_fields r) = true.
-Proof.
-  intros p Hp.
-  assert (H : forallb (fun p => match find (fun r => plat_eqb (sf_plat r) p && String.eqb (sf_fn r) "cpu_times" && negb (sfrow_doc_ok r)
-                                                     && negb (mem "nice" (sf_fields r)) && mem "iowait" (sf_fields r)) sysfield_rows with
-                                | Some _ => true | None => false end) [SunOS; AIX] = true) by (vm_compute; reflexivity).
-  pose proof (proj1 (forallb_forall _ _) H p Hp) as H1. cbv beta in H1.
-  destruct (find (fun r => plat_eqb (sf_plat r) p && String.eqb (sf_fn r) "cpu_times" && negb (sfrow_doc_ok r)
-                           && negb (mem "nice" (sf_fields r)) && mem "iowait" (sf_fields r)) sysfield_rows) as [r|] eqn:E; [|discriminate].
-  apply find_some in E as [Hin Hb].
-  apply andb_true_iff in Hb as [Hb Hio]. apply andb_true_iff in Hb as [Hb Hn]. apply andb_true_iff in Hb as [Hb Hd].
-  apply andb_true_iff in Hb as [Hpl Hf].
-  exists r. repeat split; auto.
-  - apply plat_eqb_eq; exact Hpl.
-  - apply String.eqb_eq; exact Hf.
-  - apply negb_true_iff; exact Hd.
-  - apply negb_true_iff; exact Hn.
-Qed.
